@@ -164,6 +164,17 @@ impl Session {
                     return Err(Error::SessionNotEstablished);
                 }
             };
+            // The record that supplies the key must belong to the node id the packet claims to come
+            // from. Otherwise anybody could complete the handshake as `remote_id` by attaching their
+            // own record and signing with their own key. Treat it like a bad signature: the packet
+            // is ignored and the challenge stays outstanding.
+            if enr.node_id() != *remote_id {
+                warn!(
+                    node = %remote_id,
+                    "Handshake carries a record that does not belong to the claimed node id",
+                );
+                return Err(Error::InvalidChallengeSignature(Box::new(challenge)));
+            }
             enr.public_key()
         };
 
